@@ -73,3 +73,10 @@ package v1alpha1
 //@   fresh result
 //@   ensures (in == nil) == (result == nil)
 //@   ensures in != nil ==> *result == *in
+
+//@ extern func JobTemplate.DeepCopy
+//@   params in
+//@   fresh result
+//@   ensures (in == nil) == (result == nil)
+//@   ensures in != nil ==> result.Parallelism == in.Parallelism && result.MaxAttempts == in.MaxAttempts && result.RetryDelaySeconds == in.RetryDelaySeconds
+//@        && result.TaskPendingTimeoutSeconds == in.TaskPendingTimeoutSeconds && result.ForbidTaskForceDeletion == in.ForbidTaskForceDeletion
